@@ -176,17 +176,17 @@ pub fn gunzip(data: &[u8]) -> Result<Vec<u8>, String> {
     Ok(out)
 }
 
-/// keystream of the inner cipher: `len` bytes starting at byte offset `off`
+/// keystream of the inner cipher for the stream key stored in the file: `len` bytes starting at byte offset `off`
 pub fn inner_keystream(c: &Inner, key: &[u8], off: usize, len: usize) -> Result<Vec<u8>, String> {
     let mut buf = vec![0u8; off + len];
     match c {
         Inner::Plain => {}
         Inner::Salsa20 => {
-            if key.len() != 32 {
-                return Err("salsa20 key length".into());
-            }
+            // KeePass (CryptoRandomStream) and KeePassXC (KeePass2RandomStream) key Salsa20 with SHA-256 of the stream key,
+            // in KDBX 3.1 (header field 8) and in KDBX 4 (inner header field 2) alike; any key length is legal
+            let k = sha256(&[key]);
             let iv = [0xE8, 0x30, 0x09, 0x4B, 0x97, 0x20, 0x5D, 0x2A];
-            let mut s = salsa20::Salsa20::new_from_slices(key, &iv).map_err(|e| e.to_string())?;
+            let mut s = salsa20::Salsa20::new_from_slices(&k, &iv).map_err(|e| e.to_string())?;
             s.apply_keystream(&mut buf);
         }
         Inner::ChaCha20 => {
